@@ -144,8 +144,14 @@ def _typed(d):
     return {k: (type(v).__name__, v) for k, v in d.items()}
 
 
+def _fresh(name):
+    """an equal string that is another object (as a name read from a file or built at run time is): names are compared
+    by value"""
+    return "".join(list(name)) if len(name) > 1 else name.encode("utf-8").decode("utf-8")
+
+
 def _by_arg(plan):
-    return [a if a == b else (a, b) for a, b in plan["by"]]
+    return [_fresh(a) if a == b else (_fresh(a), _fresh(b)) for a, b in plan["by"]]
 
 
 def _tuples(item):
